@@ -572,7 +572,7 @@ TIERS = {
     # runs, sim seconds cap, hash contexts, hashctx corpus extra docs
     "quick": {"runs": 2400, "sim_s": 30, "ctx": 24, "docs": 600, "ctx_s": 60,
               "sweep_pairs": 6, "sweep_stride": 1, "sweep_all_pairs": 0, "sweep_s": 42, "base_s": 20,
-              "sweep_double": 60, "sweep_opcode_pairs": 0, "sweep_lasts": False, "sweep_cancel_stride": 2},
+              "sweep_double": 60, "sweep_opcode_pairs": 0, "sweep_lasts": False, "sweep_cancel_stride": 1},
     "thorough": {"runs": 60000, "sim_s": 900, "ctx": 192, "docs": 4000, "ctx_s": 500,
                  "sweep_pairs": 150, "sweep_stride": 1, "sweep_all_pairs": 12, "sweep_s": 800, "base_s": 400,
                  "sweep_double": 600, "sweep_opcode_pairs": 6},
@@ -864,9 +864,15 @@ class Checker:
                 # after the aborted call: a near-twin of A (same length and token
                 # count, one digit changed -- what an identity- or shape-keyed leftover
                 # of the aborted call would be confused with), A itself, then B
-                single = dict(base, threads=[[opa] + twins_a + [dict(opa), opb, {"op": "RC"}]], exits=[])
-                for k in cpoints:
-                    yield dict(single, table=[[0, 0, k, "cancel", None]])
+                # two shapes of "what the worker does next", alternating over the points:
+                # the same document again (a retry), or near-twins first (other work)
+                retry = dict(base, threads=[[opa, dict(opa), opb, {"op": "RC"}]], exits=[], after_cancel="retry")
+                other = dict(base, threads=[[opa] + twins_a + [dict(opa), opb, {"op": "RC"}]], exits=[],
+                             after_cancel="twins")
+                for ci, k in enumerate(cpoints):
+                    yield dict(retry, table=[[0, 0, k, "cancel", None]])
+                    if ci % 3 == pi % 3:
+                        yield dict(other, table=[[0, 0, k, "cancel", None]])
 
             def got(i, scn, r):
                 if "_harness" in r:
@@ -883,13 +889,13 @@ class Checker:
                 else:
                     done[1] += 1
                     sw["cancellation_runs"] += 1
-                    absorb(scn, r, ("cancel-sweep", pi, scn["table"][0][2]))
+                    absorb(scn, r, ("cancel-sweep", pi, scn["table"][0][2], scn.get("after_cancel")))
 
             forkpool.run_jobs(jobs(), exec_scenario, workers=_cpu(), timeout=90, on_result=got,
                               deadline=t_end, stop=lambda: len(self.suspects) >= 40)
             if done[0] == len(points):
                 sw["complete_preemption_sweeps"] += 1
-            if done[1] == len(cpoints):
+            if done[1] >= len(cpoints):
                 sw["complete_cancellation_sweeps"] += 1
             if len(sw["samples"]) < 2:
                 sw["samples"].append({"A": _op_brief(opa), "B": _op_brief(opb), "line_events_of_A": na,
@@ -947,7 +953,7 @@ class Checker:
             if prov[0] == "sweep2":
                 return dict(base, table=[[0, 0, prov[2], "switch", 1], [1, 0, prov[3], "switch", 0]])
             opa, opb = base["threads"][0][0], base["threads"][1][0]
-            twins = self.sweep_twins.get(prov[1]) or []
+            twins = (self.sweep_twins.get(prov[1]) or []) if (len(prov) > 3 and prov[3] == "twins") else []
             return dict(base, threads=[[opa] + twins + [dict(opa), opb, {"op": "RC"}]], exits=[],
                         table=[[0, 0, prov[2], "cancel", None]])
         return None
